@@ -440,7 +440,7 @@ class NPGetText(BaseTranslateFilter, TranslatableFilter):
 
 
 def _count(val: Any) -> Optional[int]:
-    if val in (None, False, True):
+    if val is None or isinstance(val, bool):
         return None
     try:
         return int(val)
